@@ -13,9 +13,10 @@ import G9.Driver.Life
 import G9.Driver.FidLife
 import G9.Driver.BufPool
 import G9.Driver.ClntIO
+import G9.Driver.ReqList
 open G9 G9.Driver
 
-def handlers : List (String → List String → Option String) := [wire, logger, srvseq, frames, ufs, clnt, life, fidlife, bufsess, clntio]
+def handlers : List (String → List String → Option String) := [wire, logger, srvseq, frames, ufs, clnt, life, fidlife, bufsess, clntio, reqlist]
 
 def answer (line : String) : String :=
   match (line.trimAscii.toString.splitOn " ").filter (· ≠ "") with
